@@ -87,6 +87,11 @@ pub fn run(input: &Value) -> Option<Value> {
                 if got != want || real.exists(&x) != want.is_some() {
                     return Some(json!({"step": i, "what": "lookup differs", "model": want, "real": got}));
                 }
+                // the lookup the runner uses must agree
+                let got_use = real.get_for_use(&x).map(|c| c.help().parse::<usize>().unwrap());
+                if got_use != want {
+                    return Some(json!({"step": i, "what": "get_for_use (the runner's lookup) differs", "model": want, "real": got_use}));
+                }
             }
             _ => return None,
         }
